@@ -114,6 +114,7 @@ int ABT_barrier_reinit(ABT_barrier barrier, uint32_t num_waiters)
     if (arg_num_waiters != p_barrier->num_waiters) {
         /* We can reuse waiters and waiter_type arrays */
         p_barrier->num_waiters = arg_num_waiters;
+        ABTI_VERIF_EV(ABTI_VEV_DATA, p_barrier, 2, arg_num_waiters);
     }
     return ABT_SUCCESS;
 }
@@ -216,6 +217,7 @@ int ABT_barrier_wait(ABT_barrier barrier)
 
     ABTI_ASSERT(p_barrier->counter < p_barrier->num_waiters);
     p_barrier->counter++;
+    ABTI_VERIF_EV(ABTI_VEV_DATA, p_barrier, 1, p_barrier->counter);
 
     /* If we do not have all the waiters yet */
     if (p_barrier->counter < p_barrier->num_waiters) {
@@ -227,6 +229,7 @@ int ABT_barrier_wait(ABT_barrier barrier)
         ABTI_waitlist_broadcast(p_local, &p_barrier->waitlist);
         /* Reset counter */
         p_barrier->counter = 0;
+        ABTI_VERIF_EV(ABTI_VEV_DATA, p_barrier, 1, 0);
         ABTD_spinlock_release(&p_barrier->lock);
     }
     return ABT_SUCCESS;
